@@ -119,13 +119,17 @@ def loadTiled (data : Bytes) (width height : Nat) : List (List (Nat × Nat × Na
   (List.range height).map fun y => (List.range width).map fun x =>
     rgb565 (readLE (slice data (tileIndex x y width * px) px))
 
-/-- the inverse: tile an array of RGB565 values (row-major `pix y x`) -/
+/-- pixel position of a tiled index (inverse of the address map) -/
+def untile (idx width : Nat) : Nat × Nat :=
+  let tile := idx / 64
+  let inner := idx % 64
+  let xi := inner % 2 + 2 * (inner / 4 % 2) + 4 * (inner / 16 % 2)
+  let yi := inner / 2 % 2 + 2 * (inner / 8 % 2) + 4 * (inner / 32 % 2)
+  (8 * (tile % (width / 8)) + xi, 8 * (tile / (width / 8)) + yi)
+
+/-- the specification-side tiler: RGB565 values `pix y x` stored in tile order, two bytes little-endian each -/
 def tileImage (pix : Nat → Nat → Nat) (width height : Nat) : Bytes :=
-  (List.range (width * height)).flatMap fun idx =>
-    -- find the (x, y) with this index
-    let cands := (List.range height).flatMap fun y => (List.range width).filterMap fun x =>
-      if tileIndex x y width = idx then some (pix y x) else none
-    toLE 2 (cands.headD 0)
+  (List.range (width * height)).flatMap fun idx => toLE 2 (pix (untile idx width).2 (untile idx width).1)
 
 end Smdh
 
